@@ -39,6 +39,10 @@ def gen_history(rng, tier, profile=None):
     w_submit = 10
     w_cancel = rng.choice([0, 1, 3, 5])
     w_step = rng.choice([0, 1, 2, 4])
+    if profile.get("long_lived"):
+        # few orders with long lifetimes, many clock steps (lifetimes that cross the 100-step storage chunks)
+        n_ops = rng.randint(120, 320)
+        w_submit, w_cancel, w_step = 2, 0.3, 10
     w_toggle = {"continuous": 0, "batch": 0.6, "mixed": 0.8}[mode]
     w_x = {"continuous": 0.3, "batch": 0.5, "mixed": 0.5}[mode]
     big_vol = rng.random() < 0.15
@@ -91,6 +95,44 @@ def gen_history(rng, tier, profile=None):
     }
 
 
+def gen_deep_cancel_history(rng, tier):
+    """deep one-sided books, cancels of the best and of arbitrary resting orders, then orders from the other side
+    priced inside the resting range (the situations in which a damaged priority structure becomes visible)."""
+    tick = rng.choice([1.0, 0.5, 0.1, 10.0])
+    base = rng.choice([100, 1000])
+    ops = [["R", True]]
+    for _ in range(rng.randint(1, 3)):
+        side = rng.random() < 0.5
+        width = rng.randint(5, 20)
+        for _ in range(rng.randint(8, 24)):
+            lev = base + (-(rng.randint(1, width)) if side else rng.randint(1, width))
+            ops.append(["L", side, lev * tick, rng.randint(1, 3), rng.choice([None, None, None, 30]), 0])
+            if rng.random() < 0.5:
+                ops.append(["T"])
+        for _ in range(rng.randint(3, 10)):
+            # burst: cancels of arbitrary resting orders, then of the best, then an order from the other side
+            # priced at the k-th best resting level (resolved on the live depth view) - no trade in between
+            for _ in range(rng.randint(0, 3)):
+                ops.append(["CR", side])
+            for _ in range(rng.randint(0, 3)):
+                ops.append(["CB", side])
+            for _ in range(rng.randint(1, 2)):
+                r = rng.random()
+                if r < 0.75:
+                    ops.append(["LX", not side, rng.choice([0, 0, 1, 1, 2, 3]), rng.randint(1, 2), 1])
+                elif r < 0.85:
+                    ops.append(["M", not side, rng.randint(1, 2), None, 1])
+                else:
+                    lev = base + (-(rng.randint(0, width)) if side else rng.randint(0, width))
+                    ops.append(["L", not side, lev * tick, rng.randint(1, 2), rng.choice([None, 2]), 1])
+            for _ in range(rng.randint(1, 5)):
+                ops.append(["L", side, (base + (-(rng.randint(1, width)) if side else rng.randint(1, width))) * tick, 1, None, 0])
+        if rng.random() < 0.5:
+            ops.append(["T"])
+    return {"tick": tick, "p0": base * tick, "auto": True, "mode": "deep-cancel", "ops": ops,
+            "fund_seed": rng.randrange(1 << 30)}
+
+
 class DirectRun:
     def __init__(self, case):
         from pams.market import Market
@@ -136,6 +178,30 @@ class DirectRun:
             o = self.submitted[op[1] % len(self.submitted)]
             if o.order_id is None:
                 return  # its acceptance failed earlier; nothing to cancel
+            m._cancel_order(Cancel(order=o))
+            if self.case["auto"] and m.is_running:
+                m._execution()
+        elif k == "LX":
+            depth = (m.get_sell_order_book() if op[1] else m.get_buy_order_book())
+            levels = [p for p in depth if p is not None]
+            if not levels:
+                return
+            price = levels[min(op[2], len(levels) - 1)]
+            o = Order(agent_id=op[4], market_id=0, is_buy=op[1], kind=LIMIT_ORDER, volume=op[3], price=price, ttl=None)
+            self.submitted.append(o)
+            m._add_order(o)
+            if self.case["auto"] and m.is_running:
+                m._execution()
+        elif k in ("CB", "CR"):
+            ob = m.buy_order_book if op[1] else m.sell_order_book
+            if k == "CB":
+                o = ob.get_best_order()
+            else:
+                rest = [x for x in self.submitted if x.is_buy == op[1] and x.order_id is not None and x.volume > 0
+                        and not x.is_canceled and not (x.ttl is not None and x.placed_at + x.ttl < m.time)]
+                o = rest[(len(rest) * 7 + self.op_index * 13) % len(rest)] if rest else None
+            if o is None:
+                return
             m._cancel_order(Cancel(order=o))
             if self.case["auto"] and m.is_running:
                 m._execution()
